@@ -2,7 +2,7 @@
 from .. import sweepprops as S
 
 LEVEL = 'proof'
-NEEDS = ['Base', 'Digraph', 'DSep', 'DSepProofs', 'CorrDag']
+NEEDS = ['Bridge', 'BridgeProofs', 'Base', 'Digraph', 'DSep', 'DSepProofs', 'CorrDag']
 
 
 def check(run, tier, seed):
